@@ -50,3 +50,87 @@ def r5_vertex_namespace(ctx):
 
 
 RULES = [r1_prologues, r2_componentwise, r3_set_to, r4_top_not_stored, r5_vertex_namespace]
+
+
+# ------------------------------------------------------------------ side symmetry of the join's inferred relations
+GRAPH_JOIN_FILES = ("include/crab/domains/split_dbm.hpp", "include/crab/domains/split_oct.hpp")
+
+
+def _side_of(e, fn, body, d, memo, depth=0):
+    """set of operand sides ('X' = first operand / this, 'Y' = second operand) an expression draws its values from"""
+    out = set()
+    if depth > 8:
+        return out
+    ps = fn.get("params", [])
+    # two leading parameters of the same type: first / second operand (static or helper joins)
+    twin_params = {}
+    if len(ps) >= 2 and (ps[0].get("T") or "").replace("const ", "") == (ps[1].get("T") or "").replace("const ", ""):
+        twin_params = {ps[0]["id"]: "X", ps[1]["id"]: "Y"}
+    if "__lambdas__" not in memo:
+        memo["__lambdas__"] = {}
+        for l in walk(body):
+            if l.get("k") == "lambda":
+                lp = l.get("params") or []
+                if len(lp) >= 2 and (lp[0].get("T") or "").replace("const ", "") == (lp[1].get("T") or "").replace("const ", ""):
+                    memo["__lambdas__"][lp[0]["id"]] = "X"
+                    memo["__lambdas__"][lp[1]["id"]] = "Y"
+    twin_params = dict(twin_params)
+    twin_params.update(memo["__lambdas__"])
+    for x in walk(e):
+        if x.get("k") == "lambda":
+            continue
+        if x.get("k") == "this" and not memo["__lambdas__"]:
+            out.add("X")
+        elif x.get("k") == "ref":
+            if x.get("rk") == "param":
+                if x.get("id") in twin_params:
+                    out.add(twin_params[x["id"]])
+                elif ps and x.get("id") == ps[0]["id"] and not fn.get("static"):
+                    out.add("Y")          # the argument of a binary member operator
+            elif x.get("rk") == "local":
+                vid = x.get("id")
+                if vid in memo:
+                    out |= memo[vid]
+                    continue
+                memo[vid] = set()
+                dd = d.get(vid) or {}
+                sd = set()
+                if "i" in dd:
+                    sd |= _side_of(dd["i"], fn, body, d, memo, depth + 1)
+                memo[vid] = sd
+                out |= sd
+    return out
+
+
+def r6_join_sides(ctx):
+    ctx.rule("C04.r6", "zones / octagons join: a relation inferred from the bounds takes max(term over the LEFT operand, the same term "
+             "over the RIGHT operand); neither argument of the max may mix the two operands", floor=6)
+    n = 0
+    for f in GRAPH_JOIN_FILES:
+        for fn in ctx.db.fns(f):
+            if fn["name"] not in ("operator|", "join", "operator|="):
+                continue
+            body = fn["body"]
+            d = local_decls(body)
+            memo = {}
+            for c in walk(body):
+                if not (c.get("k") == "call" and callee(c) and callee(c).get("qn", "").startswith("std::max") and len(c.get("a", [])) == 2):
+                    continue
+                sa = _side_of(c["a"][0], fn, body, d, memo)
+                sb = _side_of(c["a"][1], fn, body, d, memo)
+                if not (sa | sb) >= {"X", "Y"}:
+                    continue          # not a left/right combination
+                n += 1
+                if (sa == {"X"} and sb == {"Y"}) or (sa == {"Y"} and sb == {"X"}):
+                    ctx.ok("%s: max(%s, %s)" % (fn["name"], src(c["a"][0])[:40], src(c["a"][1])[:40]), fn, c)
+                else:
+                    mixed = c["a"][0] if len(sa) > 1 else c["a"][1]
+                    ctx.bad("%s::%s infers a relation with max(`%s`, `%s`): the term `%s` mixes values of BOTH operands, so the bound is not "
+                            "the maximum of what each operand guarantees and states of one operand are cut off from the join" %
+                            (fn["cpk"].split("::")[-1], fn["name"], src(c["a"][0])[:60], src(c["a"][1])[:60], src(mixed)[:60]), fn, c,
+                            sig="join-mixed-sides:%s" % src(mixed)[:60])
+    if n == 0:
+        ctx.fail("rule C04.r6: no max(left term, right term) found in the graph-domain joins")
+
+
+RULES += [r6_join_sides]
